@@ -38,4 +38,4 @@ def run(tier):
 MANIFEST = dict(engine='mc', level='model_checking',
   technique='explicit-state BFS over the real IRCServer; per-output recipient/identity oracle against the announcement-tied membership relation',
   text='For every transition of the bounded exploration every emitted message is classified (channel/private message, numeric, ERROR, notification, services relay) and its recipient set and prefix are checked against the membership/ownership relation of the pre-state, which is itself tied to the announced JOIN/PART/KICK/QUIT/NICK events on every step.',
-  note='Bounds as C06. Unclassifiable lines are held to the strictest rule (causing session only). Services link ids ignored in recipient sets.')
+  note='Bounds as C06. Unclassifiable lines are held to the strictest rule (causing session only). Services link ids ignored in recipient sets. Delivery tier: what the real GET handler serves (from the start and from every resume point) is compared with a twin state machine; a member\'s channel message must be relayed.')
